@@ -34,6 +34,11 @@ func coqVal(v *Val) string {
 		return "VNil"
 	}
 	if !v.Map {
+		if v.Leaf == "" {
+			// the zero string: what an atom node (input type string) is handed when it runs without data (its leaf
+			// predecessor skipped, triggered by a control-only edge) — the model's zero input
+			return "VNil"
+		}
 		n, err := strconv.ParseUint(v.Leaf, 10, 62)
 		if err != nil {
 			n = foreignCode
